@@ -50,3 +50,21 @@ Theorem C14_faulty_survives_receipt_timeout : forall p d,
   p_state p = PFaulty ->
   exists p' o, handle_announce_receipt_timer p d = Ok (p', d, o) /\ p_state p' = PFaulty.
 Proof. exact faulty_survives_receipt_timeout. Qed.
+
+(** C14_main: for every valid set-up and EVERY valid event list the COMPLETE
+    oracle ok_C14 accepts the model's own trace: every peer-delay measurement is
+    exactly ((t4-t1)-(t3-t2))/2 of one Pdelay_Req, one response and (two-step)
+    the follow-up of the same responder, corrections applied; a response or
+    follow-up from a second identity makes the port faulty and yields no
+    measurement, a contested exchange never yields one afterwards; a faulty port
+    sends no master-role frame and makes no Sync/Delay measurement; it leaves the
+    faulty state only into LISTENING through a clean exchange, and enters it only
+    through a conflicting response.  The proof couples PeerDelayState with the
+    oracle's record of the current request (MainC14.cp14).  The theorem is FALSE
+    of the tree before the repair of F26 (a faulty port was made passive by the
+    multiport rule); it was found by this proof attempt. *)
+From SV Require Import Port.MainC14.
+Theorem C14_main : forall s es rel,
+  setup_valid s -> Forall event_valid es ->
+  exists i o, init s = Ok (i, o) /\ ok_C14 (mkCase s es rel (Some o) (run i es)) = true.
+Proof. exact ok_C14_model. Qed.
